@@ -75,6 +75,12 @@ let () =
          (match run_tok v lines inds sl sc first with
           | Err e -> print_endline (tokerr e)
           | Ok toks -> print_endline (show_tokens toks))
+       | "resume" ->
+         let v = nextn () in let sl = nextn () in let sc = nextn () in let first = next () = 1 in
+         let inds = str () in
+         let nl = next () in
+         let lines = List.init nl (fun _ -> str ()) in
+         print_endline (String.concat "|" (List.map (function None -> "-" | Some l -> pstr l) (run_resume_points v lines inds sl sc first)))
        | "text" ->
          let v = nextn () in let m = if next () = 1 then Recover else Strict in let start = nextn () in
          let s = str () in
